@@ -83,62 +83,65 @@ Theorem C01_untrimmed_tag_refuted :
 Proof. exact untrimmed_tag_refuted. Qed.
 Print Assumptions C01_untrimmed_tag_refuted.
 
-(* finding F-C01-1: the key Node + "." + ServiceID does not determine the instance ... *)
+(* The key struct{node, serviceID} determines the instance. *)
+Theorem C01_inst_key_injective : forall n1 s1 n2 s2,
+  inst_key n1 s1 = inst_key n2 s2 -> n1 = n2 /\ s1 = s2.
+Proof. exact inst_key_injective. Qed.
+Print Assumptions C01_inst_key_injective.
+
+(* finding F-C01-1, repaired in /repo by the fix: commit f815d97: the key used to be the string
+   Node + "." + ServiceID, which does not determine the instance ... *)
 Theorem C01_inst_key_collision_refuted :
-  exists n1 s1 n2 s2, (n1, s1) <> (n2, s2) /\ inst_key n1 s1 = inst_key n2 s2.
+  exists n1 s1 n2 s2, (n1, s1) <> (n2, s2) /\ inst_key_unrepaired n1 s1 = inst_key_unrepaired n2 s2.
 Proof. exact inst_key_collision_refuted. Qed.
 Print Assumptions C01_inst_key_collision_refuted.
 
-(* ... so an unhealthy instance is routed when its key namesake is healthy *)
+(* ... so an unhealthy instance was routed when its key namesake was healthy (stated about the
+   pipeline as it was, [svc_config_key_unrepaired]); the repaired pipeline pushes a config for
+   the same state that does not contain the critical instance's command *)
 Theorem C01_svc_config_collision_refuted :
   exists prefix status checks catalog e line,
     In e catalog /\ In line (e_cmds e) /\
     ~ healthy checks status false (e_node e) (e_sid e) /\
-    exists text, svc_config prefix status false checks catalog = Ok text /\ In line (split_byte text 10).
+    (exists text, svc_config_key_unrepaired prefix status false checks catalog = Ok text
+                  /\ In line (split_byte text 10)) /\
+    (exists text, svc_config prefix status false checks catalog = Ok text
+                  /\ ~ In line (split_byte text 10) /\ text <> []).
 Proof. exact svc_config_collision_refuted. Qed.
 Print Assumptions C01_svc_config_collision_refuted.
 
-Theorem C01_inst_key_injective_on_domain : forall n1 s1 n2 s2,
-  ~ In 46 n1 -> ~ In 46 n2 -> inst_key n1 s1 = inst_key n2 s2 -> n1 = n2 /\ s1 = s2.
-Proof. exact inst_key_injective_on_domain. Qed.
-Print Assumptions C01_inst_key_injective_on_domain.
-
 (* Every line of the config generated for a registry state is a command of a catalog entry
-   whose key is the key of an instance registered, tagged and healthy in that state ... *)
+   whose own instance is registered, tagged and healthy in that state: an instance that is
+   unhealthy in the observed state has none of its commands in the pushed config. *)
 Theorem C01_svc_lines_from_healthy : forall prefix status strict checks catalog ls x,
   config_lines prefix catalog (watch_passing prefix status strict checks) = Ok ls ->
   In x (sort_desc ls) ->
-  exists e n sid, In e catalog /\ In x (e_cmds e) /\
-                  inst_key (e_node e) (e_sid e) = inst_key n sid /\
-                  registered (checks_with_tag_prefix prefix checks) n sid /\
-                  healthy (checks_with_tag_prefix prefix checks) status strict n sid.
+  exists e, In e catalog /\ In x (e_cmds e) /\
+            registered (checks_with_tag_prefix prefix checks) (e_node e) (e_sid e) /\
+            healthy (checks_with_tag_prefix prefix checks) status strict (e_node e) (e_sid e).
 Proof. exact svc_lines_from_healthy. Qed.
 Print Assumptions C01_svc_lines_from_healthy.
 
-(* ... which on the domain of dot-free node names is the entry's own instance *)
-Theorem C01_unhealthy_not_in_config_on_domain : forall prefix status strict checks catalog ls x,
-  (forall e, In e catalog -> ~ In 46 (e_node e)) ->
-  (forall c, In c checks -> ~ In 46 (c_node c)) ->
+Theorem C01_unhealthy_not_in_config : forall prefix status strict checks catalog ls x,
   config_lines prefix catalog (watch_passing prefix status strict checks) = Ok ls ->
   In x (sort_desc ls) ->
   exists e, In e catalog /\ In x (e_cmds e) /\
             registered (checks_with_tag_prefix prefix checks) (e_node e) (e_sid e) /\
             healthy (checks_with_tag_prefix prefix checks) status strict (e_node e) (e_sid e).
 Proof. exact unhealthy_not_in_config. Qed.
-Print Assumptions C01_unhealthy_not_in_config_on_domain.
+Print Assumptions C01_unhealthy_not_in_config.
 
 (* The other direction, over the generated commands: every command routecmd.build has for
    a catalog entry whose instance is registered under the entry's service name, carries
    the prefix on all its checks and is healthy is a line of the pushed config; and a line
-   is in the config iff it is a command of an entry matching, by name and key, a check
+   is in the config iff it is a command of an entry matching, by name, node and id, a check
    handed to makeConfig. *)
 Theorem C01_svc_lines_iff : forall prefix status strict checks catalog ls x,
   config_lines prefix catalog (watch_passing prefix status strict checks) = Ok ls ->
   (In x (sort_desc ls) <->
    exists e svc, In e catalog /\ In x (e_cmds e) /\ e_sname e <> [] /\
                  In svc (watch_passing prefix status strict checks) /\
-                 c_sname svc = e_sname e /\
-                 inst_key (c_node svc) (c_sid svc) = inst_key (e_node e) (e_sid e)).
+                 c_sname svc = e_sname e /\ c_node svc = e_node e /\ c_sid svc = e_sid e).
 Proof. exact svc_lines_iff. Qed.
 Print Assumptions C01_svc_lines_iff.
 
@@ -190,8 +193,8 @@ Print Assumptions C01_watch_active_is_last_accepted.
 (* An instance that has become unhealthy is absent from every table installed after that
    state was observed: from the delivery of the config of state (checks, catalog) on, until
    a newer service config arrives, every installed table is built from exactly the lines
-   [ls] plus the manual text, and each of these lines is a command of an entry whose key is
-   the key of an instance registered and healthy in that state. *)
+   [ls] plus the manual text, and each of these lines is a command of an entry whose instance
+   is registered and healthy in that state. *)
 Theorem C01_unhealthy_absent : forall (table : Type) (build : str -> option table)
     prefix status strict checks catalog ls (w : wstate table) h1 h2 t,
   config_lines prefix catalog (watch_passing prefix status strict checks) = Ok ls ->
@@ -200,10 +203,9 @@ Theorem C01_unhealthy_absent : forall (table : Type) (build : str -> option tabl
   In t (installs table build w h1) \/
   (exists m, t = next_text (join (sort_desc ls) [10]) m /\ build t <> None) /\
   forall x, In x (sort_desc ls) ->
-    exists e n sid, In e catalog /\ In x (e_cmds e) /\
-                    inst_key (e_node e) (e_sid e) = inst_key n sid /\
-                    registered (checks_with_tag_prefix prefix checks) n sid /\
-                    healthy (checks_with_tag_prefix prefix checks) status strict n sid.
+    exists e, In e catalog /\ In x (e_cmds e) /\
+              registered (checks_with_tag_prefix prefix checks) (e_node e) (e_sid e) /\
+              healthy (checks_with_tag_prefix prefix checks) status strict (e_node e) (e_sid e).
 Proof. exact unhealthy_absent. Qed.
 Print Assumptions C01_unhealthy_absent.
 
@@ -233,12 +235,11 @@ Proof. exact config_lines_struct. Qed.
 Print Assumptions C01_config_lines_are_built_commands.
 
 (* (2) the headline, unbounded registry states.  Hypotheses: Consul reports the instance's tags
-   on its checks ([consistent]); instance keys are injective (outside F-C01-1); the healthy
-   entries are C14-[expressible].  Then the pushed config is accepted by NewTable and the table
+   on its checks ([consistent]); the healthy entries are C14-[expressible].  Then the pushed config is accepted by NewTable and the table
    has a target (service, lower-cased host, path, destination, weight, tags) for an instance
    and prefix IF AND ONLY IF the instance is healthy and advertises the prefix. *)
 Theorem C01_svc_table_iff : forall isp pw canon gl env prefix status strict checks rcat,
-  consistent checks rcat -> keys_injective checks rcat ->
+  consistent checks rcat ->
   (forall r, In r rcat -> inst_healthy status strict checks r ->
              expressible isp pw canon gl env prefix (r_reg r) = true) ->
   exists text t,
@@ -255,7 +256,7 @@ Print Assumptions C01_svc_table_iff.
 (* ... with the operator's route commands applied on top, for manual texts made of acceptable
    'route add' commands: nothing but the healthy instances' and the operator's targets *)
 Theorem C01_svc_table_with_manual_adds : forall isp pw canon gl env prefix status strict checks rcat,
-  consistent checks rcat -> keys_injective checks rcat ->
+  consistent checks rcat ->
   (forall r, In r rcat -> inst_healthy status strict checks r ->
              expressible isp pw canon gl env prefix (r_reg r) = true) ->
   forall m dm, parse pw m = Ok dm -> Forall (addable canon gl) dm ->
@@ -279,7 +280,7 @@ Print Assumptions C01_svc_table_with_manual_adds.
    and whose last manual text is empty, the ACTIVE table has a target for (instance, prefix)
    iff the instance is healthy in that state and advertises the prefix. *)
 Theorem C01_active_table_iff : forall isp pw canon gl env prefix status strict checks rcat,
-  consistent checks rcat -> keys_injective checks rcat ->
+  consistent checks rcat ->
   (forall r, In r rcat -> inst_healthy status strict checks r ->
              expressible isp pw canon gl env prefix (r_reg r) = true) ->
   forall (w : wstate table) h e,
@@ -297,7 +298,7 @@ Print Assumptions C01_active_table_iff.
 
 (* ... and with a last manual text of acceptable 'route add' commands *)
 Theorem C01_active_table_with_manual_adds : forall isp pw canon gl env prefix status strict checks rcat,
-  consistent checks rcat -> keys_injective checks rcat ->
+  consistent checks rcat ->
   (forall r, In r rcat -> inst_healthy status strict checks r ->
              expressible isp pw canon gl env prefix (r_reg r) = true) ->
   forall (w : wstate table) h e m dm,
@@ -323,7 +324,7 @@ Print Assumptions C01_active_table_with_manual_adds.
    state's config plus a manual text, and for manual texts of acceptable 'route add' commands
    every one of its targets belongs to an instance healthy in that state or to a manual command. *)
 Theorem C01_unhealthy_absent_table : forall isp pw canon gl env prefix status strict checks rcat,
-  consistent checks rcat -> keys_injective checks rcat ->
+  consistent checks rcat ->
   (forall r, In r rcat -> inst_healthy status strict checks r ->
              expressible isp pw canon gl env prefix (r_reg r) = true) ->
   forall (w : wstate table) text h1 h2 tt,
@@ -343,7 +344,7 @@ Print Assumptions C01_unhealthy_absent_table.
 (* the hypotheses are met by a concrete state (two instances of one service, one critical, a
    blank-padded routing tag, an upper-case host): only the healthy one is in the table *)
 Theorem C01_registry_table_nonvacuous :
-  consistent ex_checks ex_rcat /\ keys_injective ex_checks ex_rcat
+  consistent ex_checks ex_rcat
   /\ (forall r, In r ex_rcat -> expressible all_print pweight_dec idcanon anyglob env_dc pfx (r_reg r) = true)
   /\ inst_healthy [bs "passing"] false ex_checks (mkREntry (bs "n1") (ex_reg "s1" "10.0.0.1"))
   /\ ~ inst_healthy [bs "passing"] false ex_checks (mkREntry (bs "n2") (ex_reg "s2" "10.0.0.2"))
